@@ -60,7 +60,9 @@ type table struct {
 	groupStep   []int64
 	groupSample []uint64
 	groupValue  []float64
-	outputStep  []int64
+	// groupMatchStep is the last step at which a match group produced a result.
+	groupMatchStep []int64
+	outputStep     []int64
 }
 
 func newTable(
@@ -82,7 +84,9 @@ func newTable(
 		groupStep:   make([]int64, numGroups),
 		groupSample: make([]uint64, numGroups),
 		groupValue:  make([]float64, numGroups),
-		outputStep:  make([]int64, numOutputs),
+
+		groupMatchStep: make([]int64, numGroups),
+		outputStep:     make([]int64, numOutputs),
 	}
 }
 
@@ -137,15 +141,20 @@ func (t *table) execBinaryOperation(lhs model.StepVector, rhs model.StepVector, 
 		if len(outputs) > 1 {
 			outputSampleID = outputs[t.oneLocal[t.groupSample[group]]]
 		}
-		// Two results with the same labels are an ambiguous match.
-		if t.outputStep[outputSampleID] == t.step {
-			kind := errMultipleMatchesGrouping
-			if t.card == parser.CardOneToOne {
-				kind = errMultipleMatchesOneToOne
+		if t.card == parser.CardOneToOne {
+			// A one-to-one match must not pair a sample with several samples of the
+			// other side, even if the results differ in their metric name.
+			if t.groupMatchStep[group] == t.step {
+				return model.StepVector{}, &errManyToManyMatch{kind: errMultipleMatchesOneToOne}
 			}
-			return model.StepVector{}, &errManyToManyMatch{kind: kind}
+			t.groupMatchStep[group] = t.step
+		} else {
+			// Two results with the same labels are an ambiguous match.
+			if t.outputStep[outputSampleID] == t.step {
+				return model.StepVector{}, &errManyToManyMatch{kind: errMultipleMatchesGrouping}
+			}
+			t.outputStep[outputSampleID] = t.step
 		}
-		t.outputStep[outputSampleID] = t.step
 
 		step.SampleIDs = append(step.SampleIDs, outputSampleID)
 		step.Samples = append(step.Samples, outputVal)
